@@ -22,6 +22,9 @@ type Desc struct {
 	Mode     string `json:"mode,omitempty"`    // duplex | lockstep | updown
 	How      string `json:"how,omitempty"`     // unblock: close | peer-gone
 	Version  string `json:"version,omitempty"` // e2e-netconf: 1.0 | 1.1
+	Early    int    `json:"early,omitempty"`     // telnet xfer: bytes the peer sends immediately on accept (inside the client's negotiation window)
+	EarlyNeg bool   `json:"early_neg,omitempty"` // telnet xfer: preceded by three option negotiations
+	Cycles   int    `json:"cycles,omitempty"`    // cycle: Open/Close rounds on one Transport object
 	Paced    bool   `json:"paced,omitempty"`   // e2e-netconf: slow log sink (30 ms per lone return) + device that sends replies in two halves 80 ms apart
 	Seed     int64  `json:"seed"`
 }
@@ -292,7 +295,19 @@ func pause(r *rand.Rand) {
 func runXfer(d Desc) mon.Result {
 	t0 := time.Now()
 	key := func(k string) string { return "c16/" + d.T + "/" + k }
-	l, err := openLink(d.T, d.ReadSize)
+	var ep *earlyPlan
+	if d.Early > 0 {
+		// banner-like early burst: PRNG bytes without 0xff (inside the negotiation window 0xff starts a
+		// telnet command - C15's subject)
+		eb := payload("prng", d.Early, d.Seed^0x7e1)
+		for i := range eb {
+			if eb[i] == 0xff {
+				eb[i] = 0x7f
+			}
+		}
+		ep = &earlyPlan{Neg: d.EarlyNeg, Data: eb}
+	}
+	l, err := openLink(d.T, d.ReadSize, ep)
 	if err != nil {
 		if errors.Is(err, errSetup) {
 			return mon.Result{Verdict: mon.Inconclusive, Detail: "harness: " + err.Error()}
@@ -320,7 +335,11 @@ func runXfer(d Desc) mon.Result {
 	cs.reads, cs.max = 0, 0
 	go clientReader(l, cs)
 	go peerReader(l, ps)
-	wantDown := append(append([]byte(nil), l.pre...), down...)
+	// what the client must read in total: bytes it already read during setup, the early burst the peer
+	// sent on accept, then the payload; what the peer must receive: negotiation answers, then the payload
+	downBase := append(append([]byte(nil), l.pre...), l.earlyDown...)
+	wantDown := append(append([]byte(nil), downBase...), down...)
+	upWant := func(b []byte) []byte { return append(append([]byte(nil), l.earlyUp...), b...) }
 
 	var accepted []byte // bytes Transport.Write accepted
 	var amu sync.Mutex
@@ -336,7 +355,7 @@ func runXfer(d Desc) mon.Result {
 		return true
 	}
 	bad := func(k, f string, a ...interface{}) mon.Result {
-		return mon.Result{Verdict: mon.Violated, Key: key(k), Detail: fmt.Sprintf("%s rs=%d size=%d mode=%s payload=%s: ", d.T, d.ReadSize, len(up), d.Mode, d.Payload) + fmt.Sprintf(f, a...), NonTrivial: true}
+		return mon.Result{Verdict: mon.Violated, Key: key(k), Detail: fmt.Sprintf("%s rs=%d size=%d mode=%s payload=%s early=%d/neg=%v: ", d.T, d.ReadSize, len(up), d.Mode, d.Payload, d.Early, d.EarlyNeg) + fmt.Sprintf(f, a...), NonTrivial: true}
 	}
 	judge := func(dir string, s *sink, want []byte) *mon.Result {
 		class, c := await(s, want)
@@ -364,7 +383,7 @@ func runXfer(d Desc) mon.Result {
 					break
 				}
 				uo += upC[i]
-				if r := judge("up", ps, up[:uo]); r != nil {
+				if r := judge("up", ps, upWant(up[:uo])); r != nil {
 					return *r
 				}
 			}
@@ -374,7 +393,7 @@ func runXfer(d Desc) mon.Result {
 					break
 				}
 				do += downC[i]
-				if r := judge("down", cs, wantDown[:len(l.pre)+do]); r != nil {
+				if r := judge("down", cs, wantDown[:len(downBase)+do]); r != nil {
 					return *r
 				}
 			}
@@ -389,7 +408,7 @@ func runXfer(d Desc) mon.Result {
 			pause(r)
 		}
 		if werr == nil {
-			if r := judge("up", ps, up); r != nil {
+			if r := judge("up", ps, upWant(up)); r != nil {
 				return *r
 			}
 		}
@@ -452,7 +471,7 @@ func runXfer(d Desc) mon.Result {
 	if !bytes.Equal(accepted, up) {
 		return mon.Result{Verdict: mon.Inconclusive, Detail: "harness: accepted bytes differ from the plan"}
 	}
-	if r := judge("up", ps, accepted); r != nil {
+	if r := judge("up", ps, upWant(accepted)); r != nil {
 		return *r
 	}
 	if r := judge("down", cs, wantDown); r != nil {
@@ -487,11 +506,23 @@ func runXfer(d Desc) mon.Result {
 	if cs.max > d.ReadSize {
 		obs["reads_larger_than_read_size"]++
 	}
+	if d.Early > 0 {
+		obs["early_bursts"]++
+		if l.inWindow {
+			obs["early_bursts_sent_inside_negotiation_window"]++
+		}
+		if d.Early > d.ReadSize {
+			obs["early_bursts_larger_than_read_size"]++
+		}
+	}
 	if d.Payload == "debruijn" {
 		obs["payloads_with_all_65536_byte_pairs"] += 2
 	}
 	tags := []string{"transport=" + d.T, fmt.Sprintf("readsize=%d", d.ReadSize), "mode=" + d.Mode, "payload=" + d.Payload, sizeClass(d.Size, d.ReadSize)}
-	return mon.Result{Verdict: mon.Held, NonTrivial: len(up) > d.ReadSize, Obs: obs, Tags: tags,
+	if d.Early > 0 {
+		tags = append(tags, fmt.Sprintf("telnet-early-burst(neg=%v)", d.EarlyNeg))
+	}
+	return mon.Result{Verdict: mon.Held, NonTrivial: len(up) > d.ReadSize || d.Early > d.ReadSize, Obs: obs, Tags: tags,
 		Sample: map[string]interface{}{"transport": d.T, "read_size": d.ReadSize, "bytes_each_way": len(up), "mode": d.Mode, "client_reads": cs.reads,
 			"largest_read": cs.max, "writes": len(upC), "peer_writes": len(downC), "reader_error_at_close": fmt.Sprint(cs.err)}}
 }
